@@ -340,29 +340,28 @@ Section Trav.
   (* ---- apply ------------------------------------------------------------------------------- *)
   Lemma apply_one_tr g s p : local_ok pl p ->
     r_tr (apply_one sc pl g s p) = r_tr s \/
-    exists st X, r_tr (apply_one sc pl g s p) = IEv (EApply g (p_id p) st) :: X /\
-      (X = r_tr s \/ exists r ok m sto, apply_req_for (p_id p) r /\ X = IReq r ok m sto :: r_tr s).
+    exists st lt, r_tr (apply_one sc pl g s p) = IEv (EApply g (p_id p) st) :: lt ++ r_tr s /\
+      apply_items (p_id p) lt.
   Proof.
     intros [_ Hl]. unfold apply_one. destruct (p_local p) as [l|] eqn:EL; [right|left; reflexivity].
     destruct (negb (kind_known sc (r_known s) (p_id p))).
-    { eexists _, (r_tr s). split; [reflexivity|left; reflexivity]. }
+    { eexists _, []. split; [reflexivity|constructor]. }
     pose proof (policy_apply_filter_same sc s (p_id p)) as [_ PR].
     destruct (policy_apply_filter sc s (p_id p)) as [s1 f1]. cbn [fst] in PR.
     destruct (match f1 with FPass => _ | _ => _ end).
-    - pose proof (kubectl_apply_shape sc s1 l) as [_ KR]. rewrite (Hl l eq_refl) in KR.
+    - pose proof (kubectl_apply_shape sc s1 l) as [_ [lt [KR AL]]]. rewrite (Hl l eq_refl) in AL.
       destruct (kubectl_apply sc s1 l) as [s2 r]. cbn [fst] in KR. rewrite PR in KR.
-      destruct r; eexists _, (r_tr s2); (split; [reflexivity|]);
-        (destruct KR as [KR|[rq [ok [m [st [AR KR]]]]]]; [left; exact KR|right; exists rq, ok, m, st; auto]).
-    - eexists _, (r_tr s1). split; [reflexivity|left; exact PR].
-    - eexists _, (r_tr s1). split; [reflexivity|left; exact PR].
+      destruct r; eexists _, lt; (split; [cbn; rewrite KR; reflexivity|exact AL]).
+    - eexists _, []. split; [cbn; rewrite PR; reflexivity|constructor].
+    - eexists _, []. split; [cbn; rewrite PR; reflexivity|constructor].
   Qed.
 
   Lemma j_apply_one Da Dp td g s p : local_ok pl p -> In (p_id p) Da ->
     J Da Dp (p_id p :: td) (r_tr s) -> J Da Dp td (r_tr (apply_one sc pl g s p)).
   Proof.
-    intros OK Hd H. destruct (apply_one_tr g s p OK) as [->|[st [X [-> HX]]]]; [exact (J_drop pl _ _ _ _ _ H)|].
-    apply J_res_apply. destruct HX as [->|[r [ok [m [sto [AR ->]]]]]]; [exact H|].
-    exact (J_areq pl _ _ _ _ r ok m sto _ AR Hd H).
+    intros OK Hd H. destruct (apply_one_tr g s p OK) as [->|[st [lt [-> AL]]]]; [exact (J_drop pl _ _ _ _ _ H)|].
+    apply J_res_apply. induction AL as [|it lt [r [ok [m [sto [-> AR]]]]] _ IH]; [exact H|].
+    cbn [app]. exact (J_areq pl _ _ _ _ r ok m sto _ AR Hd IH).
   Qed.
 
   Lemma j_apply_task Da Dp td g layer : Forall (local_ok pl) layer -> incl (map p_id layer) Da ->
